@@ -177,6 +177,9 @@ def check_arm(chk, f, name, enum, av, arm, sw_bb):
                 if cb is not None:
                     import json as _json
                     names_code = '"n": "error"' in _json.dumps(cb.raw["blocks"])
+                    # (precise capture: the closure may capture `&data.error` itself rather than `data`)
+                    if not names_code and cl.kind == "agg":
+                        names_code = any(mentions_error_field(f.ex.operand(o)) for o in cl.rv.get("ops", []))
                 chk.require(names_code, "C20/unknown-code-keeps-identity", inst,
                             "a result code without message-table entry is replaced by a default that does not name the code "
                             "(%s with a closure that never reads .error)" % n.rsplit("::", 1)[-1], "default names the code", f.sp(bb))
